@@ -935,3 +935,104 @@ m('C04','benign-adjust-reorder',R,
 m('C04','benign-clamp-form',R,
   '\t\tif rate < minLossRate {\n\t\t\trate = minLossRate\n\t\t}','\t\tif rate <= minLossRate {\n\t\t\trate = minLossRate\n\t\t}',
   '','','equivalent clamp',benign=True)
+# ---------------- C06 ----------------
+m('C06','late-unguarded',PC,
+  '\t\t\tif cache.received < cache.expected {\n\t\t\t\tcache.received++\n\t\t\t}','\t\t\tcache.received++',
+  'R6.1','store received in packetcache.(*Cache).Store','a duplicate of an old packet makes received exceed expected',quick=True)
+m('C06','first-no-expected',PC,
+  '\t\tcache.lastValid = true\n\t\tcache.expected++\n\t\tcache.received++','\t\tcache.lastValid = true\n\t\tcache.received++',
+  'R6.1','store received in packetcache.(*Cache).Store','first packet counted as received but not expected')
+m('C06','jump-after-last',PC,
+  '\t\t\tcache.received++\n\t\t\tcache.expected += uint32(seqno - cache.last)\n\t\t\tif seqno < cache.last {\n\t\t\t\tcache.cycle++\n\t\t\t}\n\t\t\tcache.last = seqno',
+  '\t\t\tcache.received++\n\t\t\tif seqno < cache.last {\n\t\t\t\tcache.cycle++\n\t\t\t}\n\t\t\told := cache.last\n\t\t\tcache.last = seqno\n\t\t\tcache.expected += uint32(seqno - cache.last)\n\t\t\t_ = old',
+  'R6.1','store expected in packetcache.(*Cache).Store','expected grows by 0: received overtakes it')
+m('C06','expect-negative',PC,
+  '\tif n <= 0 {\n\t\treturn\n\t}\n\tcache.mu.Lock()','\tcache.mu.Lock()',
+  'R6.1','store expected in packetcache.(*Cache).Expect','a negative n wraps expected')
+m('C06','reset-received-only',PC,
+  '\t\tcache.totalExpected += cache.expected\n\t\tcache.expected = 0\n\t\tcache.totalReceived += cache.received\n\t\tcache.received = 0','\t\tcache.totalReceived += cache.received\n\t\tcache.received = 0',
+  'R6.1','GetStats','') if False else None
+m('C06','reset-without-total',PC,
+  '\t\tcache.totalReceived += cache.received\n\t\tcache.received = 0','\t\tcache.received = 0',
+  'R6.1','store received in packetcache.(*Cache).GetStats','totals lose an interval of received packets')
+m('C06','reset-expected-kept',PC,
+  '\t\tcache.totalExpected += cache.expected\n\t\tcache.expected = 0\n','\t\tcache.totalExpected += cache.expected\n',
+  'R6.1','GetStats','expected never reset: totals count it again every interval') if False else None
+m('C06','stats-after-reset',PC,
+  '\ts := Stats{\n\t\tReceived:      cache.received,','\tif reset {\n\t\tcache.totalReceived += cache.received\n\t\tcache.received = 0\n\t\treset = false\n\t\tcache.totalExpected += cache.expected\n\t\tcache.expected = 0\n\t}\n\ts := Stats{\n\t\tReceived:      cache.received,',
+  'R6.1','GetStats reports the counters as they are','the interval counters are read after they were zeroed')
+m('C06','stats-total-without-current',PC,
+  '\t\tTotalReceived: cache.totalReceived + cache.received,','\t\tTotalReceived: cache.totalReceived,',
+  'R6.1','GetStats reports the counters as they are','total received lags by one interval while total expected does not')
+m('C06','eseqno-shift',PC,
+  '\t\tESeqno:        uint32(cache.cycle)<<16 | uint32(cache.last),','\t\tESeqno:        uint32(cache.cycle)<<8 | uint32(cache.last),',
+  'R6.1','GetStats reports the counters as they are','cycle bits overlap the seqno')
+m('C06','fraction-no-clamp','rtpconn/rtpconn.go',
+  '\t\t\tif fractionLost >= 255 {\n\t\t\t\tfractionLost = 255\n\t\t\t}','',
+  'R6.2','loss fraction fits in 0..255','total loss reported as 0 (256 mod 256)',quick=True)
+m('C06','fraction-unguarded','rtpconn/rtpconn.go',
+  '\t\tif stats.Expected > stats.Received {\n\t\t\tlost := stats.Expected - stats.Received','\t\tif stats.Expected != stats.Received {\n\t\t\tlost := stats.Expected - stats.Received',
+  'R6.2','lost = stats.Expected - stats.Received','unsigned underflow when more than expected arrived')
+m('C06','totallost-unguarded','rtpconn/rtpconn.go',
+  '\t\tif stats.TotalExpected > stats.TotalReceived {\n\t\t\ttotalLost = stats.TotalExpected - stats.TotalReceived\n\t\t}','\t\ttotalLost = stats.TotalExpected - stats.TotalReceived',
+  'R6.2','lost = stats.TotalExpected - stats.TotalReceived','4 billion packets reported lost')
+m('C06','window-shift-unpaired',PC,
+  '\t\tbitmap.bitmap >>= shift\n\t\tbitmap.first += shift','\t\tbitmap.bitmap >>= shift\n\t\tbitmap.first += shift + 1',
+  'R6.3','bitmap.set: every shift','bits stand for the wrong packets after a window shift',quick=True)
+m('C06','window-ones-unpaired',PC,
+  '\t\tbitmap.bitmap >>= ones\n\t\tbitmap.first += uint16(ones)','\t\tbitmap.bitmap >>= ones',
+  'R6.3','bitmap.set: every shift','received packets shifted out without advancing the base')
+m('C06','get-base-not-advanced',PC,
+  '\tbitmap.bitmap >>= count\n\tbitmap.first += count','\tbitmap.bitmap >>= count',
+  'R6.3','bitmap.get: every shift','every later packet is blamed for its predecessors')
+m('C06','get-local-unpaired',PC,
+  '\t\tbm >>= count\n\t\tfirst += uint16(count)','\t\tbm >>= count\n\t\tfirst += uint16(count) + 1',
+  'R6.3','bitmap.get: every shift','NACK names the packet after the hole')
+m('C06','set-reset-bit',PC,
+  '\t\tbitmap.first = seqno\n\t\tbitmap.bitmap = 1','\t\tbitmap.first = seqno\n\t\tbitmap.bitmap = 0',
+  'R6.3','bitmap.set: a reset starts the window','the packet that resets the window is reported missing')
+m('C06','set-wrong-bit',PC,
+  '\tbitmap.bitmap |= (1 << uint16(seqno-bitmap.first))','\tbitmap.bitmap |= (1 << uint16(seqno-bitmap.first+1))',
+  'R6.3','bitmap.set: the arriving packet sets bit','arriving packet marks its successor')
+m('C06','bitmapget-unlocked',PC,
+  '\tcache.mu.Lock()\n\tdefer cache.mu.Unlock()\n\treturn cache.bitmap.get(next)','\treturn cache.bitmap.get(next)',
+  'R6.3','in (*packetcache.bitmap).get','window read and shifted while Store updates it')
+m('C06','nack-up-to-newest',RR,
+  '\t\t\t\tpacket.SequenceNumber - unnacked,','\t\t\t\tpacket.SequenceNumber + 1,',
+  'R6.4','readLoop: holes are looked for strictly before','') if False else None
+m('C06','nack-unnacked-zero',RR,
+  '\t\tunnacked := uint16(4)\n\t\tif unnacked > uint16(packets) {\n\t\t\tunnacked = uint16(packets)\n\t\t}','\t\tunnacked := uint16(4)\n\t\tif unnacked > uint16(packets) {\n\t\t\tunnacked = uint16(packets) - 2\n\t\t}',
+  'R6.4','readLoop: holes are looked for strictly before','window queried up to the newest packet')
+m('C06','nack-other-first',RR,
+  '\t\t\t\terr := track.sendNACK(first, bitmap)','\t\t\t\terr := track.sendNACK(first+1, bitmap)',
+  'R6.4','readLoop: the NACK is what the bitmap reported','request shifted by one packet')
+m('C06','nack-without-hole',RR,
+  '\t\t\tif found && sendNACK {','\t\t\tif (found || first != 0) && sendNACK {',
+  'R6.4','readLoop: no NACK without a hole','NACK sent for a complete window: blames a received packet')
+m('C06','nack-no-expect',R,
+  '\tif err == nil {\n\t\ttrack.cache.Expect(1 + bits.OnesCount16(bitmap))\n\t}\n\treturn err','\treturn err',
+  'R6.4','sendNACK: requested packets are accounted','retransmissions not expected')
+m('C06','nack-expect-one',R,
+  '\t\ttrack.cache.Expect(1 + bits.OnesCount16(bitmap))','\t\ttrack.cache.Expect(1)',
+  'R6.4','sendNACK: requested packets are accounted','only the first of several requested packets expected')
+m('C06','nackwriter-keeps-arrived',RW,
+  '\t\tl := track.cache.Get(nacks[i], nil)\n\t\tif l > 0 {','\t\tl := track.cache.Get(nacks[i], nil)\n\t\tif l > 1500 {',
+  'R6.4','nackWriter: a buffered request survives only if','a packet that arrived in the meantime is requested from the publisher')
+m('C06','sendnacks-drops-remainder',R,
+  '\t\tf, b, seqnos = packetcache.ToBitmap(seqnos)','\t\tf, b, _ = packetcache.ToBitmap(seqnos)\n\t\tseqnos = nil',
+  'R6.4','sendNACKs: ToBitmap','only the first pair is sent')
+m('C06','tobitmap-off-by-one',PC,
+  '\t\tdelta := remain[0] - first - 1','\t\tdelta := remain[0] - first',
+  'R6.4','ToBitmap: bit','every number after the first shifted by one')
+m('C06','last-moves-back',PC,
+  '\t\t} else if cmp > 0 {\n\t\t\tif cache.received < cache.expected {','\t\t} else if cmp > 0 {\n\t\t\tcache.last = seqno\n\t\t\tif cache.received < cache.expected {',
+  'R6.5','store last in packetcache.(*Cache).Store','a late packet moves the highest seqno backwards',quick=True)
+m('C06','cycle-after-last',PC,
+  '\t\t\tif seqno < cache.last {\n\t\t\t\tcache.cycle++\n\t\t\t}\n\t\t\tcache.last = seqno','\t\t\told := cache.last\n\t\t\tcache.last = seqno\n\t\t\tif seqno < cache.last {\n\t\t\t\tcache.cycle++\n\t\t\t}\n\t\t\t_ = old',
+  'R6.5','store cycle in packetcache.(*Cache).Store','wrap never detected: extended seqno drops by 65536')
+m('C06','cycle-on-late',PC,
+  '\t\t\tif seqno < cache.last {\n\t\t\t\tcache.cycle++\n\t\t\t}','\t\t\tif seqno != cache.last {\n\t\t\t\tcache.cycle++\n\t\t\t}',
+  'R6.5','store cycle in packetcache.(*Cache).Store','cycle incremented on every packet')
+m('C06','benign-late-guard',PC,
+  '\t\t\tif cache.received < cache.expected {\n\t\t\t\tcache.received++\n\t\t\t}','\t\t\tif cache.received < cache.expected {\n\t\t\t\tcache.received += 1\n\t\t\t}',
+  '','','+= 1',benign=True)
